@@ -252,3 +252,48 @@ def e2eDirectionAsModel (o : Ordering) (dirs : List Bool) (keptA : List Nat) : B
   else true
 
 end Election
+
+/-! ### session death and reconnection (round 4) -/
+
+namespace Election
+
+/-- `ConnectionOpened{,External}`: a new, nameless, unauthenticated entry (= `NS.open`) -/
+def NS.opened (st : NS) (id : Nat) (isServer : Bool) : NS :=
+  { st with sessions := st.sessions ++ [⟨id, isServer, none, none, false⟩] }
+
+/-- what `GetSessions` lists -/
+def NS.listed (st : NS) : List Nat := (st.sessions.filter (·.auth)).map (·.id)
+
+end Election
+
+/-! ### the `NodeServerState` as a transition system (round 4) -/
+
+namespace Election
+
+/-- the messages that change `NodeServerState` (node.rs `handle` / `handle_supervisor_evt`) -/
+inductive NSOp
+  | opened (id : Nat) (isServer : Bool)          -- `ConnectionOpened{,External}`
+  | register (id : Nat) (peer : String) (connId : Nat)   -- `UpdateSession`
+  | commit (id : Nat)                             -- `ConnectionAuthenticated`
+  | close (id : Nat)                              -- `ActorTerminated` / `ActorFailed` of a session
+  deriving Repr, DecidableEq
+
+def nsStep (st : NS) : NSOp → NS
+  | .opened id srv => st.opened id srv
+  | .register id peer n => (st.register id peer n).1
+  | .commit id => match st.commit id with
+    | some (st', _, _) => st'
+    | none => st
+  | .close id => st.close id
+
+def nsRun (thisName : String) (ops : List NSOp) : NS := ops.foldl nsStep { thisName := thisName, sessions := [] }
+
+/-- session ids are never reused while a session with that id is in the table (actor ids are unique) -/
+def nsFresh : NS → List NSOp → Prop
+  | _, [] => True
+  | st, op :: rest =>
+    (match op with
+      | .opened id _ => ∀ s ∈ st.sessions, s.id ≠ id
+      | _ => True) ∧ nsFresh (nsStep st op) rest
+
+end Election
